@@ -240,6 +240,11 @@ def c08(tier, seed):
                     out.append(spec("verif_c08", "c08.rs", "c08_iter_first", "c08_iter_first_%s" % fam, [fam], T(n) + 2,
                                     tier="quick" if q else "thorough", n=n, fam=fam, mem=mem_for(n),
                                     what="all_functions on %s n=%d: first three items are 0, 1, 2" % (tname, n)))
+    for fam, n in (("s0", 0), ("s1", 1), ("s2", 2), ("d2", 2), ("s3", 3)):
+        out.append(spec("verif_c08", "c08.rs", "c08_hexorder", "c08_hexorder_%s" % fam, [fam], 70,
+                        tier="thorough", n=n, fam=fam, mem=6, mem_limit_gb=30, timeout=3000, optional=True,
+                        covers={"reached": "SATISFIED", "less": "SATISFIED"},
+                        what="%s n=%d: the order of two symbolic tables equals the lexicographic order of their to_hex_string renderings" % ("LutN" if fam[0] == "s" else "Lut", n)))
     pairs = [(0, 1), (1, 2), (2, 3), (5, 6), (6, 7), (7, 6), (7, 8), (8, 3), (3, 9), (10, 9), (11, 12), (12, 0)]
     for (a, b) in pairs:
         q = max(a, b) <= 8
@@ -608,7 +613,7 @@ def c13(tier, seed):
         can_true = any(k not in (0, 4) for k in ks)
         can_false = all(k not in (1, 5) for k in ks) and not (n >= 1 and any(ks[a] == 2 and ks[b] == 3 for a in range(4) for b in range(4)) and False)
         out.append(spec("verif_c13", "c13.rs", "c13_soes", name, [n] + ks,
-                        max((1 << n) + 3, 36 if any(k >= 4 for k in ks) else 0), tier="quick" if q else "thorough", n=n, fam="Soes", timeout=2400,
+                        max((1 << n) + 3, 36 if any(k >= 4 for k in ks) else 8), tier="quick" if q else "thorough", n=n, fam="Soes", timeout=2400,
                         mem=2 if n >= 6 else 1,
                         covers={"reached": "SATISFIED", "evaluates to true": "SATISFIED" if can_true else "UNSAT",
                                 "evaluates to false": "SATISFIED" if can_false else "UNSAT"},
@@ -641,7 +646,7 @@ def c15(tier, seed):
         if can_vary and n >= 2:
             covers["evaluates to true"] = "SATISFIED"
             covers["evaluates to false"] = "SATISFIED"
-        out.append(spec("verif_c15", "c15.rs", "c15_ops", name, [n] + ks, (1 << n) + 3,
+        out.append(spec("verif_c15", "c15.rs", "c15_ops", name, [n] + ks, max((1 << n) + 3, 8),
                         tier="quick" if q else "thorough", n=n, fam="Esop", timeout=2400, mem=2 if n >= 6 else 1,
                         covers=covers,
                         what="Esop n=%d, operands of kinds %s (0 zero, 1 one, v = x_i, ! = !x_i, symbolic i): ^ (4 forms) and ! (2 forms) denote XOR / complement, Lut::from tabulates the same function, is_zero/is_one only for the respective constant" % (n, pat)))
